@@ -172,7 +172,12 @@ inline std::vector<Doc> jsonDocs() {
   two.a.push_back(MValue::object());
   add("[[],{}]", two, false);
   add("\"a\\\"b\\\\\"", MValue::str("a\"b\\"), false);
+#if ARDUINOJSON_DECODE_UNICODE
   add("\"\\u00e9\"", MValue::str("\xc3\xa9"), false);
+#else
+  add("\"\\u00e9\"", MValue::str("\\u00e9"), false);  // the escape is kept verbatim when decoding is disabled
+  D.back().byHand = true;
+#endif
   add("\"\"", MValue::str(""), false);
   add("''", MValue::str(""), false);
   add("1E+2", MValue::f64(100.0), true);
